@@ -8,9 +8,31 @@ import numpy as np
 import setigen.voltage as V
 
 
-def pk(c, p):
+def pk_raw(c, p):
     """probe kind of polarisation stream p (the y stream may carry a different custom source from x)"""
     return c["probe"] if p == 0 else c.get("probe_y", c["probe"])
+
+
+def pk(c, p):
+    """... as far as the expected voltages go: a table-backed complex source delivers the same values as the computed one"""
+    k = pk_raw(c, p)
+    return "complex" if k == "table" else k
+
+
+TABLE_LEN = 24000
+
+
+class TableSource(object):
+    """a complex custom source backed by a persistent waveform table indexed by sample number; it hands out VIEWS of its table,
+    as a precomputed-waveform source naturally does.  What it hands out is an input: the stream may add it in, not write to it."""
+    def __init__(self, sr):
+        self.sr = sr
+        self.table = 1j * (np.arange(TABLE_LEN) / sr)
+        self.snapshot = self.table.copy()
+
+    def __call__(self, ts):
+        i0 = int(round(float(ts[0]) * self.sr))
+        return self.table[i0:i0 + len(ts)]
 
 
 def build(c):
@@ -27,7 +49,11 @@ def build(c):
             s.add_noise(v_mean=m, v_std=sd)
         for ch in c["chirps"]:
             s.add_constant_signal(f_start=ch["f_start"], drift_rate=ch["drift"], level=ch["level"], phase=ch["phase"])
-        if pk(c, si) == "complex":
+        if pk_raw(c, si) == "table":
+            src = TableSource(sr)
+            s.add_signal(src)
+            s._verif_table = src
+        elif pk(c, si) == "complex":
             s.add_signal(lambda ts: 1j * ts)
         elif pk(c, si) == "real":
             s.add_signal(lambda ts: ts * 0.0 + 0.25)
@@ -139,6 +165,14 @@ def run_case(c):
                 ok = np.allclose(got, exp, rtol=0, atol=1e-3 * (1 + sum(abs(ch["level"]) for ch in c["chirps"]))) if c["chirps"] else np.allclose(got, exp, rtol=0, atol=1e-12)
             if not ok:
                 res["mism"].append("request %d pol %d: voltages differ from the model-described sum (max diff %g)" % (gi, p, float(np.max(np.abs(got - exp)))))
+    # --- direct oracle: what a custom source hands to the stream is summed in, not written to
+    for p, st in enumerate(streams):
+        src = getattr(st, "_verif_table", None)
+        if src is not None and not np.array_equal(src.table, src.snapshot):
+            bad = np.nonzero(src.table != src.snapshot)[0]
+            res["fails"].append(["custom-source-mutated", "pol %d: get_samples wrote into the array its complex custom source returned (a view of the source's waveform table): "
+                                 "%d table entries changed, first at sample %d by %r" % (p, len(bad), int(bad[0]), complex(src.table[bad[0]] - src.snapshot[bad[0]]))])
+            break
     # --- direct oracle: a complex custom source is summed in on its own stream, whatever the other polarisation carries
     for gi, out in enumerate(outs):
         for p, v in enumerate(out):
